@@ -247,9 +247,29 @@ impl<'r> Gen<'r> {
             _ if ti > 0 => {
                 let other = self.rng.below(ti);
                 let np = self.p.templates[other].params.len();
-                let args = (0..np)
-                    .map(|_| if nparams > 0 && self.rng.chance(1, 2) { TyT::Param(self.rng.below(nparams)) } else { TyT::I64 })
-                    .collect();
+                let mut args = Vec::new();
+                for _ in 0..np {
+                    let flat = |g: &mut Self| if nparams > 0 && g.rng.chance(1, 2) { TyT::Param(g.rng.below(nparams)) } else { TyT::I64 };
+                    // one argument in four is itself an applied template: an earlier one at flat
+                    // arguments or the template being declared at its own parameters (`List[Rose[A]]`);
+                    // the set of instances stays finite
+                    let a = if self.rng.chance(1, 4) {
+                        if self.rng.chance(1, 2) {
+                            TyT::App(ti, (0..nparams).map(TyT::Param).collect())
+                        } else {
+                            let inner = self.rng.below(ti);
+                            let ni = self.p.templates[inner].params.len();
+                            let mut ia = Vec::new();
+                            for _ in 0..ni {
+                                ia.push(flat(self));
+                            }
+                            TyT::App(inner, ia)
+                        }
+                    } else {
+                        flat(self)
+                    };
+                    args.push(a);
+                }
                 TyT::App(other, args)
             }
             _ => TyT::I64,
